@@ -522,17 +522,71 @@ fn record(n_cases: usize, path: &str) -> Value {
     let (mut same, mut failed) = (0u64, 0u64);
     for _ in 0..n_cases {
         let depth = 1 + rng.below(3);
-        let cx = gen_content(&mut rng, depth, false);
-        let cy = if rng.chance(1, 2) {
+        let shape = rng.below(16);
+        let mut cx = gen_content(&mut rng, depth, false);
+        let mut cy = if rng.chance(1, 2) {
             same += 1;
             cx.clone()
         } else {
             mutate(&mut rng, &cx)
         };
-        let (ex, ey) = (gen_producer(&mut rng, &cx, depth), gen_producer(&mut rng, &cy, depth));
+        let (mut ex, mut ey) = (gen_producer(&mut rng, &cx, depth), gen_producer(&mut rng, &cy, depth));
         let mut u = Uses::default();
-        let (x, y) = (render_expr(&ex, &mut u), render_expr(&ey, &mut u));
-        let text = format!("{}x := {x}; y := {y}; m := match x {{ y => 1, => 0, }}; (x, y, x == y, x != y, m, y == x)", preamble(&u));
+        let text = if shape <= 1 {
+            // two TUPLE LITERALS written next to the operator, their elements names bound to values the folder cannot
+            // see; the right one is the left one, a prefix of it, an extension of it, or differs in one element
+            let n = 2 + rng.below(3);
+            let xs: Vec<Value> = (0..n).map(|_| gen_content(&mut rng, 1, false)).collect();
+            let mut decls = String::new();
+            let mut names_x = vec![];
+            for (i, c) in xs.iter().enumerate() {
+                let e = json!({"k": "anyp", "e": gen_producer(&mut rng, c, 1)});
+                decls.push_str(&format!("a{i} := {}; ", render_expr(&e, &mut u)));
+                names_x.push(format!("a{i}"));
+            }
+            let mut names_y = names_x.clone();
+            match rng.below(5) {
+                0 => (),
+                1 => {
+                    if names_y.len() > 2 {
+                        names_y.pop();
+                    } else {
+                        names_y.push("0".into());
+                    }
+                }
+                2 => names_y.push("0".into()),
+                3 => names_y.push(names_x[0].clone()),
+                _ => {
+                    let i = rng.below(n);
+                    let c = mutate(&mut rng, &xs[i]);
+                    let e = json!({"k": "anyp", "e": gen_producer(&mut rng, &c, 1)});
+                    decls.push_str(&format!("b{i} := {}; ", render_expr(&e, &mut u)));
+                    names_y[i] = format!("b{i}");
+                }
+            }
+            let (x, y) = (format!("({})", names_x.join(", ")), format!("({})", names_y.join(", ")));
+            format!("{}{decls}m := match {x} {{ {y} => 1, => 0, }}; ({x}, {y}, {x} == {y}, {x} != {y}, m, {y} == {x})", preamble(&u))
+        } else {
+            if shape == 2 {
+                // the two contents 20 to 33 containers down, built separately at run time (nothing shared)
+                let levels = 20 + rng.below(14);
+                for l in 0..levels {
+                    if l % 5 == 4 {
+                        cx = json!({"k": "tuple", "es": [cx, {"k": "int", "v": 1}]});
+                        cy = json!({"k": "tuple", "es": [cy, {"k": "int", "v": 1}]});
+                        ex = json!({"k": "tup", "es": [ex, lit(json!({"k": "int", "v": 1}))]});
+                        ey = json!({"k": "tup", "es": [ey, lit(json!({"k": "int", "v": 1}))]});
+                    } else {
+                        cx = json!({"k": "array", "es": [cx]});
+                        cy = json!({"k": "array", "es": [cy]});
+                        ex = json!({"k": "arr", "es": [ex]});
+                        ey = json!({"k": "arr", "es": [ey]});
+                    }
+                }
+            }
+            let (x, y) = (render_expr(&ex, &mut u), render_expr(&ey, &mut u));
+            format!("{}x := {x}; y := {y}; m := match x {{ y => 1, => 0, }}; (x, y, x == y, x != y, m, y == x)", preamble(&u))
+        };
         let rec = match run_text(&interp, &text) {
             Ran::Val { v: Variable::Tuple(t), .. } if t.len() == 6 => {
                 let mut idents = vec![];
